@@ -131,6 +131,8 @@ func ReplayAll(run *ev.Run, plan Plan, traces []*Trace, source string) {
 			} else {
 				run.Add("drift_"+d.Kind, 1)
 				if drifts <= 3 {
+					// development aid: keep the behaviour so that it can be replayed alone
+					ev.WriteReplay(plan.Prop+"-drift", ev.Violation{Key: fmt.Sprintf("drift-%s-%d", d.Kind, drifts), Detail: d.Detail, Replay: map[string]interface{}{"trace": t}})
 					run.Sample(map[string]interface{}{"drift": d, "concrete": rep.Log})
 				}
 			}
